@@ -3,7 +3,7 @@
 # Compiler replicas (stage 1 = gcc-built, stage 2 = built by stage 1, stage 3 = built by stage 2) are run
 # under simulated environments (clock, time zone, file times, heap layout and heap junk, pid, temp
 # names, stack offset; ASLR off so that layout is a function of the seed) and must agree byte for byte.
-import json, os, re, shutil, subprocess, sys, time
+import glob, json, os, re, shutil, subprocess, sys, time
 
 sys.path.insert(0, os.path.join(os.path.dirname(os.path.abspath(__file__)), "..", "common"))
 from vcommon import *
@@ -194,7 +194,13 @@ def gen_constexpr_file(r):
         elif k == 1:
             out.append("long g_%d = %s;" % (i, gen_expr(r, r.range(1, 4), False)))
         elif k == 2:
-            out.append("%s f_%d = %s;" % (r.pick(["double", "float", "long double", "double"]), i, gen_expr(r, r.range(1, 3), True)))
+            ty, e = r.pick(["double", "float", "long double", "double"]), gen_expr(r, r.range(1, 3), True)
+            if ty == "long double":
+                # (chibicc cannot initialise a long double object with static storage at all -- "internal error" -- and a file that
+                # stops there shows nothing else: the value is folded into a double object, or computed by a function)
+                out.append("double f_%d = (double)((long double)1 * %s);" % (i, e) if r.below(2) else "long double f_%d(void) { long double v = %s; return v + %s; }" % (i, e, r.pick(["1.5L", "0.1L", "1e-4900L", "0x1p-3L"])))
+            else:
+                out.append("%s f_%d = %s;" % (ty, i, e))
         elif k == 3:
             out.append("enum { E_%d = %s };\nchar a_%d[((E_%d) & 15) + 1];" % (i, gen_expr(r, r.range(1, 3), False), i, i))
         elif k == 4:
@@ -250,10 +256,10 @@ def gen_scale_file(r):
 def gen_lex_file(r):
     """lexical corners: literal spellings, escapes, encodings, and a diagnostic after tabs / multi-byte text"""
     forms = ['long a%d = 0b1011LLU + 0x7fLu + 017l + 1uLL;', 'double d%d = 0x1.8p+3 + 0x.8p1 + 1e-320 + 1E+308 + .5e1;', 'float f%d = 0x1p-149f + 3.4028235e38F + 1e-46f;',
-             'long double l%d = 0x1p-16445L + 1.1897314953572317650857593266280070162E+4932L;', 'char s%d[] = "\\x41\\101\\7\\e\\u00e9\\U0001F600\\x7f" "tail";',
+             'long double l%d(void) { long double v = 0x1p-16445L; return v + 1.1897314953572317650857593266280070162E+4932L; }', 'char s%d[] = "\\x41\\101\\7\\e\\u00e9\\U0001F600\\x7f" "tail";',
              'unsigned short u%d[] = u"a\\u00e9😀b";', 'unsigned w%d[] = U"x😀\\U0010FFFF";', 'int c%d = \'\\377\' + \'\\x80\' + \'ab\' + L\'\\xffff\' + u\'é\';',
              'char r%d[] = "café 世界";', 'int été%d = 1, naïve%d = 2;', 'long big%d = 18446744073709551615 + 9223372036854775808 + 0xFFFFFFFFFFFFFFFF;',
-             'int t%d = 1 ?""[0] : \'\\0\';', '#define STR%d(x) #x\nchar q%d[] = STR%d(  a  "b\\n"   \'c\' );', 'int line%d = __LINE__ + __COUNTER__ + __INCLUDE_LEVEL__;']
+             'int t%d(void) { return 1 ?""[0] : \'\\0\'; }', '#define STR%d(x) #x\nchar q%d[] = STR%d(  a  "b\\n"   \'c\' );', 'int line%d = __LINE__ + __COUNTER__;']
     out = []
     for i in range(r.range(3, 9)):
         f = r.pick(forms)
@@ -263,11 +269,17 @@ def gen_lex_file(r):
         pool = ["00.5", "07e1", "03.5f", "08.5", "09e0", "0129.0", "000.125L", "1e+5", "1.e5", ".5e-3", "0x1.8p3", "0X1P-2", "1e5f", "1e5L", "0b101", "0777", "0xFFu", "1ul",
                 "1lu", "1LL", "1uLL", "0.0", "0e0", "1.", "1.f", "5e-1", "4.9e-324", "1e309", "0x1p1023", "017", "0", "00", "0x0", "1e-5000L", "123456789012345678901.0"]
         fav = r.pick(pool)      # one spelling dominates the file now and then
+        local = r.below(2)      # objects with static storage (the compiler folds the value) or automatic ones (the code generator emits it)
+        if local:
+            out.append("void soup(void) {")
         for i in range(r.pick([10, 25, 60])):
             lit = fav if r.below(3) == 0 else r.pick(pool)
-            out.append("%s n%d = %s;" % ("long double" if lit.endswith("L") and "." in lit or "e" in lit.lower() and not lit.lower().startswith("0x") and lit[-1] in "lL" else
+            out.append("%s n%d = %s;" % ("double" if not local and lit[-1] in "lL" and any(c in lit.lower() for c in ".ep") and not lit.lower().startswith("0b") else
+                                         "long double" if lit.endswith("L") and "." in lit or "e" in lit.lower() and not lit.lower().startswith("0x") and lit[-1] in "lL" else
                                           "double" if any(c in lit.lower() for c in ".ep") and not lit.lower().startswith("0b") and not (lit.lower().startswith("0x") and "p" not in lit.lower()) else "long", 100 + i, lit))
-    if r.below(2):
+        if local:
+            out.append("}")
+    if r.below(4) == 0:     # (a lexical error ends the run before anything is emitted: one file in four)
         out.append(r.pick(["\t\tint café = 3 $ 4;", "  char *p = \"世界\" @;", "\tint x = 08 + 1;", "int y = 0x;", "int z = 1.5e+;", "char c = '';", 'char *s = "unterminated;', "int big = 99999999999999999999999;"]))
     return "\n".join(out) + "\nint main(void) { return 0; }\n"
 
@@ -569,46 +581,66 @@ def gen_case(seed, src, own, tests, avail=None):
     x = r.below(39)
     gen_text = None
     aux = None
+    fam = None
     if x >= 37:
         path, mutated = tests[0], False
         gen_text = gen_feature_file(r)
+        fam = "feature"
     elif x >= 36:
         path, mutated = tests[0], False
         gen_text = gen_predef_file(r, src)
+        fam = "predef"
     elif x >= 34:
         path, mutated = tests[0], False
         gen_text = gen_abi_file(r)
+        fam = "abi"
     elif x >= 32:
         path, mutated = tests[0], False
         gen_text, aux = gen_proj(r)
+        fam = "proj"
     elif x >= 30:
         path, mutated = tests[0], False
         gen_text = gen_typeexpr_file(r)
+        fam = "typeexpr"
     elif x >= 27:
         path, mutated = tests[0], False
         gen_text = gen_decl_file(r)
+        fam = "decl"
     elif x >= 25:
         path, mutated = tests[0], False
         gen_text = gen_lex_file(r)
+        fam = "lex"
     elif x >= 24:
         path, mutated = tests[0], False
         gen_text = gen_scale_file(r)
+        fam = "scale"
     elif x >= 20:
         path, mutated = tests[0], False
         gen_text = gen_constexpr_file(r)
-    elif x < 2:
+        fam = "constexpr"
+    elif x < 1:
+        # (the compiler's own sources are the biggest inputs there are -- a comparison over one costs as much as twenty others)
         path, mutated = r.pick(own), False
     elif x < 7:
         path, mutated = r.pick(tests), False
     elif x < 16:
         path, mutated = r.pick(tests), True
-    else:
+    elif x < 18:
         path, mutated = r.pick(own), True
+    elif x == 18:
+        path, mutated = tests[0], False
+        gen_text = gen_lex_file(r)
+        fam = "lex"
+    else:
+        path, mutated = tests[0], False
+        gen_text = gen_abi_file(r)
+        fam = "abi"
     opts = list(r.pick(OPTION_SETS))
     if "-o-stdout" in opts and "-S" in opts and r.below(2) == 0:
         # the output itself goes to descriptor 1: inputs that are rejected only by the code generator (`a + 1 = 2;`) belong here
         path, mutated, aux = tests[0], False, None
         gen_text = gen_typeexpr_file(r)
+        fam = "typeexpr"
     ra = r.pick([1, 1, 2, 2, 3])
     rb = r.pick([1, 2, 2, 3, 3])
     if avail:
@@ -626,6 +658,7 @@ def gen_case(seed, src, own, tests, avail=None):
         case["text"] = gen_text
     if aux:
         case["aux"] = aux
+    case["family"] = fam or ("own" if path in own else "tests") + ("-mutated" if mutated else "")
     return case
 
 
@@ -757,7 +790,7 @@ def run_replica(sdir, reps, stage, e, infile, opts, src, wdir, stats, timeout=No
                 fh.write((b"OLD CONTENT %d\n" % e["preexist"]) * (e["preexist"] // 14 + 1))
     from_stdin = "-xc-stdin" in opts
     opts = [o for o in opts if o != "-xc-stdin"]
-    argv = ["setarch", "x86_64", "-R"] + (["-L"] if e.get("layout") == 1 else []) + ["./chibicc"] + opts + ["-I" + os.path.join(src, "test"), "-I" + os.path.dirname(infile)] + (["-xc", "-"] if from_stdin else [infile])
+    argv = ["setarch", "x86_64", "-R"] + (["-L"] if e.get("layout") == 1 else []) + ["./chibicc"] + opts + ["-I" + os.path.join(src, "test"), "-I" + os.path.dirname(infile), "-I" + src] + (["-xc", "-"] if from_stdin else [infile])
     to_stdout = "-o-stdout" in opts
     if to_stdout:
         argv = [a for a in argv if a != "-o-stdout"] + ["-o", "-"]     # the output itself goes to descriptor 1
@@ -833,7 +866,24 @@ def run_replica(sdir, reps, stage, e, infile, opts, src, wdir, stats, timeout=No
             so_arg.seek(len(SO_PREFIX))
     else:
         so_arg = subprocess.PIPE if sk == "pipe" else (open(so_path, "wb") if sk == "file" else open(os.devnull, "wb"))
-    po = subprocess.Popen(argv, cwd=wdir, env=env_vars(e, sdir, stats_path), stdin=stdin_arg, stdout=so_arg, stderr=subprocess.PIPE,
+    envv = env_vars(e, sdir, stats_path)
+    # temporaries live in the real /tmp, which all workers share: the first character of the simulated mkstemp tag is the worker's
+    # lane, so that no two concurrent runs of this check can ever use the same names, and what a killed run leaves behind can be
+    # removed without touching anybody else's files
+    lane = re.match(r"w(\d+|replay)$", os.path.basename(real_wdir.rstrip("/")))
+    tmp_glob = None
+    if lane:
+        ch = "Z" if lane.group(1) == "replay" else "abcdefghijklmnopqrstuvwxyzABCDEFGHIJKLMNOPQRSTUVWXY"[int(lane.group(1)) % 51]
+        envv["ENVSIM_TMPTAG"] = ch + e["tmpname"][1:]
+        tmp_glob = "/tmp/chibicc-" + envv["ENVSIM_TMPTAG"][:4] + "[0-9][0-9]"
+
+    def sweep_tmp():
+        for x in glob.glob(tmp_glob) if tmp_glob else []:
+            try:
+                os.unlink(x)
+            except OSError:
+                pass
+    po = subprocess.Popen(argv, cwd=wdir, env=envv, stdin=stdin_arg, stdout=so_arg, stderr=subprocess.PIPE,
                           start_new_session=True, pass_fds=extra_fds, preexec_fn=_child_setup(e, bigstack, from_stdin, records_cwd))
     if isinstance(stdin_arg, int) and stdin_arg >= 0 and from_stdin:
         os.close(stdin_arg)
@@ -848,7 +898,9 @@ def run_replica(sdir, reps, stage, e, infile, opts, src, wdir, stats, timeout=No
         except OSError:
             pass
         po.communicate()
+        sweep_tmp()
         return {"status": "timeout", "stdout": b"", "stderr": b"", "out": None, "dep": None}
+    sweep_tmp()
 
     class P:
         pass
@@ -1029,7 +1081,7 @@ def worker(args):
     t_end = time.monotonic() + seconds
     HARD_STOP[0] = t_end + max(120, seconds // 10)
     out = {"runs": 0, "viol": [], "hashes": set(), "nontrivial": 0, "diagnosed": 0, "crashed": 0, "ok": 0, "samples": [], "sub": {"same_replica_diff_env": 0, "diff_replica_same_env": 0, "diff_both": 0},
-           "knob_diffs": dict((k, 0) for k in KNOBS), "held_time": 0, "shim": {}, "by_opt": {}, "mutated": 0, "timeouts": 0, "stack_redecided": 0, "errors": []}
+           "knob_diffs": dict((k, 0) for k in KNOBS), "held_time": 0, "shim": {}, "by_opt": {}, "mutated": 0, "timeouts": 0, "stack_redecided": 0, "errors": [], "by_family": {}}
     stats_counter.clear()
     k = start
     while time.monotonic() < t_end:
@@ -1059,6 +1111,8 @@ def worker(args):
             out["diagnosed"] += 1
         sub = "same_replica_diff_env" if case["a"] == case["b"] else ("diff_replica_same_env" if case["e1"] == case["e2"] else "diff_both")
         out["sub"][sub] += 1
+        fm = out["by_family"].setdefault(case.get("family", "?"), [0, 0, 0])     # accepted / diagnosed / crashed identically
+        fm[0 if st == 0 else 2 if isinstance(st, int) and st < 0 else 1] += 1
         o = " ".join(case["opts"][:1]) or "(link)"
         out["by_opt"][o] = out["by_opt"].get(o, 0) + 1
         # which perturbations took effect (read back from the shim's own counters)
@@ -1216,7 +1270,7 @@ def main(argv):
         for t in d[2][:3]:
             rep.harness_error("case did not repeat exactly: " + t)
     agg = {"runs": 0, "nontrivial": 0, "diagnosed": 0, "crashed": 0, "ok": 0, "held_time": 0, "mutated": 0, "timeouts": 0, "stack_redecided": 0}
-    sub, knob, shim, by_opt = {}, {}, {}, {}
+    sub, knob, shim, by_opt, by_family = {}, {}, {}, {}, {}
     hashes, samples = set(), []
     for r in results:
         for k in agg:
@@ -1224,6 +1278,10 @@ def main(argv):
         for d, s in ((sub, r["sub"]), (knob, r["knob_diffs"]), (shim, r["shim"]), (by_opt, r["by_opt"])):
             for k, v in s.items():
                 d[k] = d.get(k, 0) + v
+        for k, v in r["by_family"].items():
+            t = by_family.setdefault(k, [0, 0, 0])
+            for j in range(3):
+                t[j] += v[j]
         hashes |= set(r["hashes"])
         samples += r["samples"]
         for e in r["errors"][:2]:
@@ -1266,6 +1324,7 @@ def main(argv):
         "fault_kinds_fired": {"environment_knob_differed_between_the_two_runs": knob, "time_held_equal_because_input_mentions_date_macros": agg["held_time"],
                               "shim_counters(all runs)": shim},
         "by_first_option": by_opt,
+        "by_input_family": dict((k, {"accepted": v[0], "diagnosed_identically": v[1], "crashed_identically": v[2]}) for k, v in sorted(by_family.items())),
         "determinism": {"cases_run_twice": stats.get("determinism_pairs", 0), "mismatches": stats.get("determinism_mismatches", 0)},
         "components": {"real": ["chibicc stage 1 (gcc-built), stage 2 (built by stage 1), stage 3 (built by stage 2) from the working tree", "GNU as for -c"],
                        "simulated": ["time()/clock_gettime()/gettimeofday()/clock()", "TZ", "HOME/USER/LANG/LC_ALL/COLUMNS/TERM", "getppid()", "input mtime", "malloc/calloc/realloc/free (arena base, padding, junk fill, poison on free, realloc always moves)",
